@@ -1,18 +1,43 @@
 """C04 -- A failed, interrupted or ambiguous commit never damages committed data.
 
-Proof      : coq/Props/C04.v over Model/Fault.v (file plane on top of the commit machine): for every
-             sequence of protocol steps, file writes, failures / asynchronous interrupts at any step boundary
-             (EAbort), crashes and rollbacks, by any number of transactions, every file referenced by a committed
-             version is present (C04_no_damage); files are deleted only by transactions that never flipped;
-             uncommitted files are unreachable; the protocol invariant (hence C01) survives every failure.
+Proof      : coq/Props/C04.v.
+             (1) Model/Fault.v (file plane on top of the commit machine): for every sequence of protocol steps, file
+             writes, failures / asynchronous interrupts at any step boundary (EAbort), crashes and rollbacks, by any number
+             of transactions, every file referenced by a committed version is present (C04_no_damage); files are deleted
+             only by transactions that never flipped; uncommitted files are unreachable; the protocol invariant (hence
+             C01) survives every failure.
+             (2) Model/Tail.v -- post-flip infallibility.  Fault.v's rollback is guarded by "never flipped"; the code has
+             no such test: Transaction.commit's `except Exception` arm deletes the transaction's files whenever an Exception
+             reaches it.  The TAIL of every commit path (what still runs inside Transaction.commit's `try` once the
+             version-hint write has landed: the rest of MetadataManager.commit, create_snapshot, _commit_file_ops,
+             _finish_committed, every library method they call inlined, BOTH sides of every `if` -- so code that runs only
+             under a table property is in it) is regenerated from the source by translator/gen_tail.py as a regular
+             expression over storage / lock calls, each marked guarded (an Exception it raises is swallowed before
+             Transaction.commit's handlers) or not.  Tail.v adds the event the guard excluded (TEscape: an exception class
+             leaves the tail, the arm the regenerated table gen_tx_on names runs, no test of the protocol state).
+             C04_post_flip_no_damage: for every tail and handler table with tail_safe, every event list keeps every file
+             of every committed version present; C04_tail_regenerated_safe / C04_commit_tail_no_damage: the regenerated
+             tails are safe for the regenerated table; C04_unguarded_tail_damages: the proviso is necessary (an escaping
+             class with a deleting arm has a damaging run).
 Tie        : each faulty run of the real code (fault injected at storage call k of a real commit) is projected to
-             model events -- protocol steps, FWrite for each file the transaction wrote, EAbort where the
-             exception escaped, FRollback when the transaction's files were deleted -- and `frun_strict` must
-             accept it (a rollback-delete after the flip is NOT accepted) and agree on flipped / outcome.
+             model events -- protocol steps, FWrite for each file the transaction wrote, EAbort where the exception escaped
+             before / at the flip, TEscape where it left the tail, FRollback when the transaction's files were deleted --
+             and `trun_strict` over the regenerated tail and handler table must accept it (a rollback-delete after the
+             flip is NOT accepted; a deletion of table files outside the rollback is refused by the projection) and agree
+             on flipped / outcome / what the handler did.  The calls every real commit issues after its flip must be a
+             word of the regenerated tail (tail_accepts, Brzozowski derivatives, evaluated in Coq), and an Exception
+             injected at one of them reaches the caller only if the tail has an unguarded call of that kind.
+Cases      : fault at storage call k (every k) x {OSError, botocore ClientError} before / after effect, KeyboardInterrupt,
+             SystemExit; persistent faults (every later call of the same operation on the same class of path fails);
+             x {append, expire, delete_snapshot} x {with, explicit, reused transaction object} x {local, CAS S3, non-CAS S3}
+             x TABLE CONFIGURATION / PRE-HISTORY (CONFIGS: retention window full / pruning at every commit / with room /
+             invalid value, metadata-log bound 1, expired and deleted snapshots in the history, long histories); thorough adds
+             double faults and one transaction that deletes and appends.
 Oracle     : implementation-only: after every faulty run, with an independent reader: success => post-state;
              raise => pre- or post-state; every file referenced by any retained snapshot present; storage-error
-             raise (not ambiguous) => pre-state; ambiguous => nothing the transaction wrote was deleted; the
-             table accepts a follow-up append; pre-state => none of the transaction's files is referenced.
+             raise (not ambiguous) => pre-state; ambiguous => nothing the transaction wrote was deleted; once the pointer
+             write landed nothing the transaction wrote is deleted, whichever later call fails (judged before the follow-up
+             commit); the table accepts a follow-up append; pre-state => none of the transaction's files is referenced.
 """
 from __future__ import annotations
 
@@ -24,24 +49,63 @@ from harness.lib import coqbuild, protocol as P, sched as S
 
 LEVEL = "proof"
 THEOREMS = ["C04_no_damage", "C04_unreachable", "C04_liveness", "C04_delete_only_unflipped", "C04_pre_or_post",
-            "C04_handlers_keep_after_possible_flip"]
-REQ = ["DS.Model.Commit", "DS.Model.Fault"]
+            "C04_handlers_keep_after_possible_flip",
+            "C04_post_flip_no_damage", "C04_post_flip_unreachable", "C04_post_flip_liveness", "C04_tail_regenerated_safe",
+            "C04_commit_tail_no_damage", "C04_unguarded_tail_damages"]
+REQ = ["DS.Model.CommitBase", "DS.Model.TailBase", "DS.Gen.GenCommit", "DS.Gen.GenTail", "DS.Model.Commit", "DS.Model.Fault", "DS.Model.Tail"]
 MANIFEST_ENTRY = {
     "level_text": "C04_no_damage and companions proved in Coq by an inductive invariant over every sequence of protocol steps, "
                   "file writes, exceptions / asynchronous interrupts at any step boundary, crashes and rollbacks of any number of "
                   "transactions (so every single AND multiple fault sequence): files referenced by committed versions are never "
-                  "deleted, uncommitted files never become reachable, the commit invariant survives; real commits with a fault "
-                  "injected at every storage call (exception before effect, after effect, KeyboardInterrupt / SystemExit), both "
-                  "call styles, local / CAS-S3 / non-CAS-S3 backends are projected onto the model and must be accepted by its "
-                  "strict run; an implementation-only oracle judges pre/post state, file presence, ambiguity and liveness",
-    "level_note": "trusted: Coq kernel; translator/gen_commit.py (exception-handler tables of Transaction.commit / MetadataManager.commit / _write_hint_at_commit_point, C04_handlers_keep_after_possible_flip); harness projection (where the exception escaped, which deletions are a rollback); the model "
-                  "over-approximates which files a version references (base + everything the transaction wrote); in-memory S3 as "
-                  "in C08",
-    "technique": "Coq invariant proof over commit machine + file plane with translator-regenerated handler tables; fault-injection trace validation",
+                  "deleted, uncommitted files never become reachable, the commit invariant survives; post-flip infallibility "
+                  "(C04_post_flip_no_damage, C04_commit_tail_no_damage, C04_unguarded_tail_damages): the tail of every commit path "
+                  "after the commit-point write is regenerated from the source (all table configurations at once: both sides of every "
+                  "branch) and, with the regenerated handler table, no exception class leaving it at any point can delete a file a "
+                  "committed version references -- and any unguarded fallible call in a tail provably yields a damaging run; real "
+                  "commits with a fault injected at every storage call (exception before effect, after effect, persistent, "
+                  "KeyboardInterrupt / SystemExit), both call styles, local / CAS-S3 / non-CAS-S3 backends, on default tables and on "
+                  "tables with retention / metadata-log-bound properties and pruned, expired, deleted and long histories, are "
+                  "projected onto the model and must be accepted by its strict run; the calls observed after each flip must be a word "
+                  "of the regenerated tail; an implementation-only oracle judges pre/post state, file presence, ambiguity, post-flip "
+                  "deletions and liveness",
+    "level_note": "trusted: Coq kernel; translator/gen_commit.py (exception-handler tables of Transaction.commit / MetadataManager.commit / _write_hint_at_commit_point, C04_handlers_keep_after_possible_flip); "
+                  "translator/gen_tail.py (which calls follow the commit point and whether a try between them and Transaction.commit swallows Exception; its vocabulary of calls that touch neither "
+                  "storage nor the lock; fail-closed on anything else; checked against every observed post-flip call sequence); harness projection (where the exception escaped, which deletions "
+                  "are a rollback); the model over-approximates which files a version references (base + everything the transaction wrote) and lets an escaping class leave the tail at any "
+                  "point after the flip; in-memory S3 as in C08",
+    "technique": "Coq invariant proof over commit machine + file plane + post-commit tail machine with translator-regenerated handler tables and tails; fault-injection trace validation over table configurations",
     "design_ref": "DESIGN.md section 5 C04",
 }
 
 FAULT_KINDS = ["exc-before", "exc-after", "kbi", "sysexit", "other-before", "other-after"]
+
+# ---- table configurations / pre-histories (a dimension of every fault-injection case).  The commit path depends on the
+# table's properties and on what its history holds: opt-in snapshot retention prunes snapshots inside create_snapshot
+# (only when the commit pushes one out of the window), the metadata log is trimmed to write.metadata.previous-versions-max,
+# expiry / delete_snapshot leave re-pointed parents and a current snapshot that is not the newest.  Code that runs only
+# under such a configuration is reached by no fault plan on a default table.
+RET_KEY = "datashard.snapshot.retention-count"
+MAX_KEY = "write.metadata.previous-versions-max"
+_A = {"do": "append"}
+
+
+def _prop(k: str, v: str) -> Dict[str, Any]:
+    return {"do": "set_property", "key": k, "value": v}
+
+
+CONFIGS: Dict[str, Optional[List[Dict[str, Any]]]] = {
+    "default": None,                                                          # two appends, no properties
+    "ret2-full": [_A, _prop(RET_KEY, "2"), _A],                               # window full: the commit pushes a snapshot out
+    "ret1-long": [_A, _A, _A, _prop(RET_KEY, "1"), _A],                       # the history itself was pruned (3 at once); every commit prunes
+    "ret3-room": [_A, _prop(RET_KEY, "3"), _A],                               # retention on, nothing to prune yet
+    "ret-invalid": [_A, _prop(RET_KEY, "many"), _A],                          # ignored value
+    "prevmax1": [_A, _prop(MAX_KEY, "1"), _A, _A],                            # metadata log trimmed at every commit
+    "long": [_A, _A, _A, _A, _A],
+    "ret2-prevmax1-expired": [_A, _A, _prop(RET_KEY, "2"), _prop(MAX_KEY, "1"), _A, {"do": "expire", "keep": 1}, _A],
+    "deleted-current": [_A, _A, _A, {"do": "delete_snapshot", "which": "current"}],   # current snapshot is not the newest
+    "deleted-oldest-ret2": [_A, _A, _A, {"do": "delete_snapshot", "which": "oldest"}, _prop(RET_KEY, "2")],
+}
+QUICK_CONFIGS = ["ret2-full", "ret1-long", "prevmax1", "ret2-prevmax1-expired"]
 
 
 class Injected(OSError):
@@ -58,15 +122,18 @@ def _other_exc(msg: str) -> Exception:
         return RuntimeError(msg)
 
 
-def op_for(kind: str, res_initial: Optional[Dict[str, Any]] = None) -> Dict[str, Any]:
+def op_for(kind: str, config: str = "default") -> Dict[str, Any]:
     if kind == "append":
         return {"kind": "append", "rows": [{"x": 100}]}
     if kind == "expire":
-        return {"kind": "expire", "cutoff": 1_700_000_000_000 + 15}
+        # default table: between its two snapshots; configured histories: everything but the current snapshot is old enough
+        return {"kind": "expire", "cutoff": 1_700_000_000_000 + (15 if config == "default" else 10_000)}
     if kind == "delete_snapshot":
         return {"kind": "delete_snapshot", "which": "old"}
     if kind == "delete_current":
         return {"kind": "delete_snapshot", "which": "current"}
+    if kind == "replace_txn":
+        return {"kind": "replace_txn", "rows": [{"x": 100}]}      # ONE transaction deletes a file of the current snapshot and appends
     raise ValueError(kind)
 
 
@@ -74,9 +141,16 @@ def all_yield(_op: str, _path: str, _phase: tuple) -> bool:
     return True
 
 
-def make_inject(k: int, fkind: str, k2: Optional[int] = None):
+def make_inject(k: int, fkind: str, k2: Optional[int] = None, sticky: bool = False):
+    """Fault at storage call k (and k2).  sticky: from call k on, EVERY call of the same operation on the same class of
+    path fails the same way (a verb the credentials do not allow, a prefix that went read-only, a dead lock service):
+    a single failing call can be masked by a retry or a fallback, a persistent one cannot."""
+    hit: List[Any] = []
+
     def inject(op: str, path: str, idx: int, phase: tuple):
-        if idx == k or (k2 is not None and idx == k2):
+        if sticky and idx == k:
+            hit.append((op, P.path_class(path)))
+        if idx == k or (k2 is not None and idx == k2) or (sticky and idx > k and hit and (op, P.path_class(path)) == hit[0]):
             if fkind == "exc-before":
                 return ("before", Injected("injected storage failure"))
             if fkind == "exc-after":
@@ -97,10 +171,27 @@ def sig(state: Dict[str, Any]) -> Tuple[int, Tuple[int, ...]]:
     return (len(state["snapshot_order"]), tuple(sorted(r["x"] for r in state["rows"])))
 
 
+_LAST: Dict[str, Any] = {"gone": []}
+
+
+def _exists_at(reader_root: Any, rel: str) -> bool:
+    try:
+        if callable(reader_root):
+            reader_root(rel)
+            return True
+        return os.path.exists(os.path.join(reader_root, rel))
+    except Exception:       # noqa: BLE001
+        return False
+
+
 def follow_up(root: str, reader_root: Any) -> Any:
     """What a NEW process sees: the failed process is gone, so the kernel has dropped any flock it leaked
     (a lock release that raised / was interrupted before its effect leaves the fd open in the old process)."""
     import datashard
+    # which of the files the transaction wrote are gone NOW -- judged before the follow-up commit (which may legitimately
+    # retire things itself, e.g. push the snapshot out of a retention window)
+    sc = P.S_current()
+    _LAST["gone"] = [f for f in _written_from_log(sc.log if sc is not None else []) if not _exists_at(reader_root, f)]
     for lk in list(S.CoopLockProvider.instances):
         try:
             lk.real.release()
@@ -135,20 +226,29 @@ class OsFsyncFault:
         os.fsync = self.real
 
 
-def run_one(ctx, backend: str, opkind: str, style: str, inject=None) -> P.CaseResult:
-    op = op_for(opkind)
+def run_one(ctx, backend: str, opkind: str, style: str, inject=None, config: str = "default") -> P.CaseResult:
+    op = op_for(opkind, config)
     op["style"] = style
     case = {"ops": [op], "clock": "tick", "backend": backend, "lock": "grant_all" if backend != "local" else "real",
             "yield_filter": all_yield}
+    if CONFIGS[config] is not None:
+        case["prehistory"] = CONFIGS[config]
     from harness.props.c01 import _fix_case
-    return P.run_case(ctx.scratch, _fix_case(case), lambda sc: (lambda en, s: en[0]), tag="c04",
-                      inject={"A0": inject} if inject else None, after=follow_up)
+    _LAST["gone"] = []
+    res = P.run_case(ctx.scratch, _fix_case(case), lambda sc: (lambda en, s: en[0]), tag="c04",
+                     inject={"A0": inject} if inject else None, after=follow_up)
+    res.gone = list(_LAST["gone"])
+    return res
 
 
 def written_files(res: P.CaseResult) -> List[str]:
+    return _written_from_log(res.log)
+
+
+def _written_from_log(log: List[dict]) -> List[str]:
     out = []
     seen_commit = False
-    for e in res.log:
+    for e in log:
         if "Transaction.commit" in (e.get("phase") or ()):
             seen_commit = True
         elif seen_commit and "Transaction.append_data" in (e.get("phase") or ()):
@@ -172,6 +272,16 @@ def exists_in(res: P.CaseResult, root_reader: Any, rel: str) -> bool:
 
 def oracle(ctx, backend: str, opkind: str, style: str, k: int, fkind: str, res: P.CaseResult, pre, post) -> Optional[str]:
     st, detail = res.outcomes["A0"]
+    # post-flip infallibility: once the pointer write has landed (whatever its caller was told), nothing this transaction wrote
+    # may be deleted by the rest of the call, whichever later storage call fails
+    flip_at = next((i for i, e in enumerate(res.log) if e["op"] in ("write_file", "write_file_cas") and P.path_class(e["path"]) == "hint"
+                    and "MetadataManager.commit" in e["phase"] and e.get("performed") is not False
+                    and (e["result"] == "ok" or (isinstance(e["result"], tuple) and e["result"][0] == "raised-after-effect"))), None)
+    gone_now = list(getattr(res, "gone", []) or [])
+    if flip_at is not None and gone_now:
+        by = next((e for e in res.log[flip_at:] if e["op"] == "delete_file" and e["path"].lstrip("/") in gone_now and e.get("performed") is not False), None)
+        return (f"the pointer write landed (call {flip_at}) and afterwards files written by the transaction, which the new version references, "
+                f"were deleted: {gone_now[:3]}" + (f" (by {by['phase'][-1]}, outcome of the call: {st} {detail})" if by else ""))
     if "error" in res.final:
         return f"table unreadable after the faulty call: {res.final['error']}"
     if res.final["missing"]:
@@ -188,7 +298,7 @@ def oracle(ctx, backend: str, opkind: str, style: str, k: int, fkind: str, res: 
     wf = written_files(res)
     fetch = _fetcher(res)
     if ambiguous:
-        gone = [f for f in wf if not exists_in(res, fetch, f)]
+        gone = list(getattr(res, "gone", None) or []) if hasattr(res, "gone") else [f for f in wf if not exists_in(res, fetch, f)]
         if gone:
             return f"ambiguous commit error but files written by the transaction were deleted: {gone[:3]}"
     if s == pre:
@@ -224,6 +334,7 @@ def project_fault(res: P.CaseResult, cas: bool) -> Tuple[List[str], List[str]]:
     rolled = False
     flipped_now = False
     done = False
+    escaped_tail = False
 
     def close_validate(ok: bool) -> None:
         nonlocal pend_validate
@@ -280,15 +391,26 @@ def project_fault(res: P.CaseResult, cas: bool) -> Tuple[List[str], List[str]]:
                     done = flipped_now
             elif (op == "DataW" or (op == "write_file" and pcs in ("manifest", "mlist"))) and (result == "ok" or after_effect):
                 evs.append("FWrite 0%nat")
-            elif op == "delete_file" and pcs in ("data", "manifest", "mlist") and "Transaction._rollback" in phase and not rolled:
-                rolled = True
-                evs.append("FRollback 0%nat")
+            elif op == "delete_file" and pcs in ("data", "manifest", "mlist") and "Transaction._rollback" in phase:
+                if escaped_tail:
+                    # what the handler that caught the escaping exception did: the model's TEscape predicts it (compared below)
+                    if "rollback-delete-after-escape" not in notes:
+                        notes.append("rollback-delete-after-escape")
+                elif not rolled:
+                    rolled = True
+                    evs.append("FRollback 0%nat")
+            elif op == "delete_file" and pcs in ("data", "manifest", "mlist", "meta") and not (
+                    pcs == "meta" and "MetadataManager._discard_unpublished_metadata" in phase):
+                # the only deletions of table files a commit performs in the model are the rollback of its OWN files and the
+                # discarding of the metadata file of a cleanly failed attempt; anything else has no event to be projected on
+                raise P.Nonconforming(f"a commit deletes a {pcs} file outside its rollback at log[{idx}]: {path} in {phase[-1] if phase else '?'}")
         # does an exception escape the commit here?
         raised_here = (fault is not None) and (fault == "before" or after_effect)
         if raised_here and not aborted:
-            if swallowed_zone and fault_is_exception(e):
+            is_flip_call = op in ("write_file", "write_file_cas") and pcs == "hint" and in_mm_commit
+            if swallowed_zone and fault_is_exception(e) and not _reached_caller(res, e, idx):
                 notes.append(f"swallowed@{idx}")
-            elif op in ("write_file", "write_file_cas") and pcs == "hint" and isinstance(result, tuple) and result[1] == "CASConflictError":
+            elif is_flip_call and isinstance(result, tuple) and result[1] == "CASConflictError":
                 pass
             else:
                 if pend_validate is not None:
@@ -296,8 +418,13 @@ def project_fault(res: P.CaseResult, cas: bool) -> Tuple[List[str], List[str]]:
                     del evs[pend_validate]
                     pend_validate = None
                 aborted = True
-                if done:
-                    notes.append(f"interrupt-after-protocol@{idx}")   # the protocol had completed (PDone Success): bookkeeping only
+                if flipped_now and not is_flip_call:
+                    # the exception leaves the TAIL of the call (Model/Tail.v): whichever arm of Transaction.commit the handler
+                    # table names runs, with no test of the protocol state
+                    escaped_tail = True
+                    cls = "XOther" if fault_is_exception(e) else "XInterrupt"
+                    evs.append(f"TEscape 0%nat {cls} false")
+                    notes.append(f"tail-escape@{idx}")
                 else:
                     evs.append("FProto (ev 0%nat EAbort)")
     if pend_validate is not None:
@@ -305,32 +432,94 @@ def project_fault(res: P.CaseResult, cas: bool) -> Tuple[List[str], List[str]]:
     return evs, notes
 
 
+def _reached_caller(res: P.CaseResult, e: dict, idx: int) -> bool:
+    """Did the exception injected at this call come out of the commit call?  (It is the last fault of the run and the call's
+    outcome is an exception of the injected type.)  Observed, not assumed from the name of the function it was raised in."""
+    st, detail = res.outcomes["A0"]
+    if st != "raised" or any(x.get("fault") for x in res.log[idx + 1:]):
+        return False
+    r = e.get("result")
+    return isinstance(r, tuple) and detail.startswith(str(r[1]))
+
+
 def fault_is_exception(e: dict) -> bool:
     r = e.get("result")
     return isinstance(r, tuple) and r[1] not in ("KeyboardInterrupt", "SystemExit")
 
 
+TAIL_OF = {"append": "gen_tail_file_ops", "replace_txn": "gen_tail_file_ops", "expire": "gen_tail_meta_only", "delete_snapshot": "gen_tail_delete_snapshot",
+           "delete_current": "gen_tail_delete_snapshot"}
+
+
+def handlers_of(opkind: str) -> str:
+    return "no_handlers" if opkind in ("delete_snapshot", "delete_current") else "gen_tx_on"
+
+
 def model_expr(res: P.CaseResult, opkind: str, backend: str, evs: List[str]) -> str:
     from harness.props.c01 import kind_of
-    kind, mr = kind_of(op_for(opkind))
+    kind, mr = ("KFresh", 50) if opkind == "replace_txn" else kind_of(op_for(opkind))
     lu0 = res.initial["meta"]["last_updated_ms"]
     cfgs = "{| cas := %s; lockkind := %s |}" % ("true" if backend == "s3cas" else "false", "Excl" if backend == "local" else "GrantAll")
+    tevs = [e if e.startswith("TEscape") else f"TF ({e})" for e in evs]
     return (f"let ev := fun a k => {{| e_actor := a; e_kind := k |}} in "
-            f"match frun_strict {cfgs} (finit {{| m_ops := []; m_cur := 1; m_lu := {lu0} |}} (fun _ => {kind}) (fun _ => {mr}%nat) [0%nat; 1%nat] 2%nat) "
-            f"[{'; '.join(evs)}] 0%nat with "
+            f"match trun_strict {TAIL_OF[opkind]} {handlers_of(opkind)} {cfgs} (finit {{| m_ops := []; m_cur := 1; m_lu := {lu0} |}} (fun _ => {kind}) (fun _ => {mr}%nat) [0%nat; 1%nat] 2%nat) "
+            f"[{'; '.join(tevs)}] 0%nat with "
             f"| inl x => (1, (outcome_code (a_pc (w_actors (fw x) 0%nat)), Z.of_nat (List.length (w_hist (fw x))), all_present x)) "
             f"| inr i => (0, (Z.of_nat i, 0, false)) end")
 
 
+# ------------------------------------------------------------------------------------------------ the tail as observed
+KIND_OF_OP = {"LockRel": "TKRelease", "LockTry": "TKLock", "Fence": "TKLock", "LockFlock": "TKLock", "delete_file": "TKDelete",
+              "exists": "TKExists", "read_file": "TKRead", "read_file_with_etag": "TKRead", "open_file": "TKRead",
+              "open_seekable": "TKRead", "get_size": "TKRead", "get_modified_time": "TKRead", "DataR": "TKRead",
+              "write_file": "TKWrite", "write_file_cas": "TKWrite", "DataW": "TKWrite", "list_files": "TKList"}
+
+
+def observed_tail(res: P.CaseResult) -> Optional[Tuple[List[str], bool, List[Tuple[str, bool]]]]:
+    """The storage / lock calls the commit call issued AFTER its pointer write landed, as tail kinds, up to the point where
+    an exception left the call (complete = none did); plus, per Exception injected at one of them, (kind, did it escape).
+    None: the pointer write did not land in this run."""
+    flip_at = next((i for i, e in enumerate(res.log) if e["op"] in ("write_file", "write_file_cas") and P.path_class(e["path"]) == "hint"
+                    and "MetadataManager.commit" in e["phase"] and e.get("performed") is not False
+                    and (e["result"] == "ok" or (isinstance(e["result"], tuple) and e["result"][0] == "raised-after-effect"))), None)
+    if flip_at is None:
+        return None
+    fe = res.log[flip_at]
+    if isinstance(fe["result"], tuple):
+        return None                 # the commit-point write itself raised (ambiguous): the call does not continue into its tail
+    kinds: List[str] = []
+    faults: List[Tuple[str, bool]] = []
+    complete = True
+    for idx in range(flip_at + 1, len(res.log)):
+        e = res.log[idx]
+        if e["op"] == "Sleep":
+            continue
+        k = KIND_OF_OP.get(e["op"], "TKOther")
+        kinds.append(k)
+        after_effect = isinstance(e["result"], tuple) and e["result"] and e["result"][0] == "raised-after-effect"
+        if e.get("fault") is not None and (e["fault"] == "before" or after_effect):
+            if not fault_is_exception(e):
+                complete = False        # KeyboardInterrupt / SystemExit: nothing swallows it
+                break
+            esc = _reached_caller(res, e, idx)
+            faults.append((k, esc))
+            if esc:
+                complete = False
+                break
+    return kinds, complete, faults
+
+
 # ------------------------------------------------------------------------------------------------ driver
 def run(ctx) -> None:
-    ctx.rule = ("one real commit per run with a fault at storage call k (every k): OSError before effect, OSError after effect "
-                "(object storage), KeyboardInterrupt / SystemExit at the step boundary; x {append, expire, delete_snapshot} x "
-                "{with, explicit} x {local, s3cas, s3nocas}; thorough adds double faults (k, k2) on the append path; distinct = "
-                "(backend, op, style, k, kind)")
+    ctx.rule = ("one real commit per run with a fault at storage call k (every k): OSError / ClientError before effect, after effect "
+                "(object storage), persistent from call k on, KeyboardInterrupt / SystemExit at the step boundary; x {append, expire, "
+                "delete_snapshot} x {with, explicit, reuse} x {local, s3cas, s3nocas} x table history (default; retention window full / "
+                "pruning / with room / invalid; metadata-log bound 1; expired, deleted, long histories -- from the start of commit() on); "
+                "thorough adds every history, double faults (k, k2) on the append path and a delete+append transaction; distinct = "
+                "(backend, op, style, history, k, k2, kind, persistent)")
     ctx.trusted_base += ["harness/lib/sched.py fault directives, protocol.py, mems3.py; harness/props/c04.py projection"]
     ctx.assumptions += ["storage failures are injected as OSError and as a non-OSError (botocore ClientError); KeyboardInterrupt/SystemExit for every BaseException"]
-    ctx.proofs(THEOREMS, gen_files=["GenCommit.v"])
+    ctx.proofs(THEOREMS, gen_files=["GenCommit.v", "GenTail.v"])
     ctx.allow_axioms([])
     quick = ctx.tier == "quick"
     combos = []
@@ -338,51 +527,98 @@ def run(ctx) -> None:
     for backend in backends:
         for opkind in (["append", "delete_snapshot"] if quick else ["append", "expire", "delete_snapshot", "delete_current"]):
             for style in (["with"] if opkind != "append" else ["with", "explicit", "reuse"]):
-                combos.append((backend, opkind, style))
+                combos.append((backend, opkind, style, "default"))
+    # the same fault plans on configured tables / longer histories (from the start of commit() on: the configuration does not
+    # change what happens before)
+    for ci, config in enumerate(QUICK_CONFIGS if quick else [c for c in CONFIGS if c != "default"]):
+        for bi, backend in enumerate(backends):
+            if quick:
+                combos.append((backend, "append", ["with", "explicit"][(ci + bi) % 2], config))
+            else:
+                combos += [(backend, "append", "with", config), (backend, "append", "explicit", config)]
+                if bi == ci % 3:
+                    combos += [(backend, "expire", "with", config), (backend, "delete_snapshot", "with", config)]
+                if backend == "local" and config in ("ret2-full", "ret1-long", "long"):
+                    combos.append((backend, "replace_txn", "with", config))     # (the actor finds its victim file on the local tree)
+    if not quick:
+        combos.append(("local", "replace_txn", "with", "default"))
     exprs, meta_runs, bad = [], [], []
+    tail_obs: List[Tuple[Dict[str, Any], str, Tuple[List[str], bool, List[Tuple[str, bool]]]]] = []
     total = 0
     reuse_runs = [0]
-    for backend, opkind, style in combos:
-        clean = run_one(ctx, backend, opkind, style)
+    for backend, opkind, style, config in combos:
+        clean = run_one(ctx, backend, opkind, style, config=config)
         clean.root = ctx.scratch + "/c04"
         pre, post = sig(clean.initial), sig(clean.final)
         ncalls = len(clean.log)
-        ctx.stats.setdefault("calls_per_commit", {})[f"{backend}/{opkind}/{style}"] = ncalls
+        ctx.stats.setdefault("calls_per_commit", {})[f"{backend}/{opkind}/{style}/{config}"] = ncalls
+        if clean.outcomes["A0"][0] != "ok" or "error" in clean.final or clean.final.get("missing"):
+            ctx.violation(f"commit-nofault:{backend}:{opkind}:{style}:{config}",
+                          f"a commit WITHOUT any fault on a table with history {config} did not leave a sound table: {clean.outcomes['A0']} "
+                          f"{clean.final.get('error') or clean.final.get('missing')}",
+                          {"backend": backend, "op": opkind, "style": style, "config": config, "k": -1, "k2": None, "fault": "none"})
+            continue
+        ot0 = observed_tail(clean)
+        if ot0 is not None and style != "reuse":
+            tail_obs.append(({"backend": backend, "op": opkind, "style": style, "config": config, "k": -1, "fault": "none"}, opkind, ot0))
         kinds = FAULT_KINDS if backend != "local" else ["exc-before", "kbi", "sysexit", "other-before"]
         if quick:
             kinds = [k for k in kinds if k != "sysexit"]
+        if quick and config != "default":
+            # one exception type per backend (OSError on the file system, a botocore ClientError on the object stores)
+            kinds = ["exc-before", "kbi"] if backend == "local" else ["other-before", "exc-after", "kbi"]
         ks = list(range(ncalls))
-        if quick and len(ks) > 30:
+        first_commit = next((i for i, e in enumerate(clean.log) if "Transaction.commit" in e["phase"] or "SnapshotManager.delete_snapshot" in e["phase"]), 0)
+        if config != "default":
+            ks = ks[first_commit:]
+        elif quick and len(ks) > 30:
             # keep every call from the start of commit() on, sample the prefix
-            first_commit = next((i for i, e in enumerate(clean.log) if "Transaction.commit" in e["phase"] or "SnapshotManager.delete_snapshot" in e["phase"]), 0)
             ks = sorted(set(ks[first_commit:] + ctx.rng.sample(ks[:first_commit], min(6, first_commit))))
-        plans = [(k, None, fk) for k in ks for fk in kinds]
-        if not quick and opkind == "append":
+        plans = [(k, None, fk, False) for k in ks for fk in kinds]
+        # persistent faults: one plan per distinct (operation, class of path) the commit issues, failing from its first use on
+        seen_cls = set()
+        for k in range(first_commit, ncalls):
+            e = clean.log[k]
+            key = (e["op"], P.path_class(e["path"]))
+            if key in seen_cls:
+                continue
+            seen_cls.add(key)
+            plans.append((k, None, "exc-before", True))
+            if not quick:
+                plans.append((k, None, "other-before", True))
+        if not quick and opkind == "append" and config == "default":
             pairs = [(k, k2) for k in ks for k2 in ks if k2 > k]
             for k, k2 in ctx.rng.sample(pairs, min(150, len(pairs))):
-                plans.append((k, k2, ctx.rng.choice(kinds)))
-        for k, k2, fk in plans:
-            res = run_one(ctx, backend, opkind, style, make_inject(k, fk, k2))
+                plans.append((k, k2, ctx.rng.choice(kinds), False))
+        for k, k2, fk, sticky in plans:
+            res = run_one(ctx, backend, opkind, style, make_inject(k, fk, k2, sticky), config=config)
             res.root = ctx.scratch + "/c04"
             total += 1
-            ctx.count(1, (backend, opkind, style, k, k2, fk))
+            ctx.count(1, (backend, opkind, style, config, k, k2, fk, sticky))
             why = oracle(ctx, backend, opkind, style, k, fk, res, pre, post)
             at = res.log[k] if k < len(res.log) else {}
             where = (at.get("phase") or ("?",))[-1]
             if why:
-                ctx.violation(f"commit-fault:{fk}:{backend}:{opkind}:{style}:{where}",
-                              f"{why} [fault {fk} at call {k} ({at.get('op')} {P.path_class(at.get('path', ''))} in {where})]",
-                              {"backend": backend, "op": opkind, "style": style, "k": k, "k2": k2, "fault": fk, "outcome": res.outcomes["A0"]})
+                ctx.violation(f"commit-fault:{fk}{'-persistent' if sticky else ''}:{backend}:{opkind}:{style}:{config}:{where}",
+                              f"{why} [fault {fk}{' (persistent: every later call of the same kind fails too)' if sticky else ''} at call {k} "
+                              f"({at.get('op')} {P.path_class(at.get('path', ''))} in {where}); table history: {config}]",
+                              {"backend": backend, "op": opkind, "style": style, "config": config, "k": k, "k2": k2, "fault": fk,
+                               "sticky": sticky, "outcome": res.outcomes["A0"]})
             if style == "reuse":
                 reuse_runs[0] += 1
                 continue        # the second transaction on the reused object is outside the one-commit model: oracle only
+            ot = observed_tail(res)
+            if ot is not None:
+                tail_obs.append(({"backend": backend, "op": opkind, "style": style, "config": config, "k": k, "fault": fk, "sticky": sticky}, opkind, ot))
             try:
-                evs, _notes = project_fault(res, backend == "s3cas")
+                evs, notes = project_fault(res, backend == "s3cas")
             except P.Nonconforming as e:
-                bad.append({"backend": backend, "op": opkind, "style": style, "k": k, "fault": fk, "nonconforming": str(e)})
+                bad.append({"backend": backend, "op": opkind, "style": style, "config": config, "k": k, "fault": fk, "sticky": sticky,
+                            "nonconforming": str(e)})
                 continue
             exprs.append(model_expr(res, opkind, backend, evs))
-            meta_runs.append((backend, opkind, style, k, k2, fk, res, evs, post))
+            meta_runs.append((backend, opkind, style, k, k2, fk, res, evs, post, config, notes))
+    ctx.stats["table_histories"] = sorted({c for _b, _o, _s, c in combos})
     # local backend: the n-th fsync of the commit fails (files before their rename, directories after it)
     for opkind, style in ([("append", "with"), ("append", "explicit")] if quick else [("append", "with"), ("append", "explicit"), ("expire", "with"), ("delete_snapshot", "with")]):
         with OsFsyncFault(None) as cnt:
@@ -408,23 +644,63 @@ def run(ctx) -> None:
     except RuntimeError as e:
         ctx.proof_problems.append("model evaluation failed: " + str(e)[:800])
         vals = []
-    for (backend, opkind, style, k, k2, fk, res, evs, post), val in zip(meta_runs, vals):
+    for (backend, opkind, style, k, k2, fk, res, evs, post, config, notes), val in zip(meta_runs, vals):
         ok, (code, nflips, present) = val
         st, detail = res.outcomes["A0"]
+        where = {"backend": backend, "op": opkind, "style": style, "config": config, "k": k, "k2": k2, "fault": fk, "outcome": [st, detail]}
         if ok != 1:
-            bad.append({"backend": backend, "op": opkind, "style": style, "k": k, "k2": k2, "fault": fk, "outcome": [st, detail],
-                        "rejected_event_index": code, "events": evs[max(0, code - 4):code + 1]})
+            bad.append(dict(where, rejected_event_index=code, events=evs[max(0, code - 4):code + 1]))
             continue
-        impl_post = "error" not in res.final and sig(res.final) == post and detail != "noop"
+        # post-state for the MODEL comparison = the pointer moved (on a history where the operation changes nothing a reader sees --
+        # an expiry with nothing to expire -- the signatures of pre- and post-state coincide)
+        impl_post = "error" not in res.final and detail != "noop" and (
+            res.final.get("pointer") != res.initial.get("pointer") if sig(res.initial) == post else sig(res.final) == post)
         impl_code = 1 if st == "ok" else (5 if impl_post else (2 if "ConcurrentModification" in detail else 4))
         if code == 1 and impl_code == 5:
-            impl_code = 1        # interrupted in post-commit bookkeeping: the protocol itself had completed successfully
+            impl_code = 1        # the call raised in post-commit bookkeeping: the protocol itself had completed successfully
         if (nflips == 1) != impl_post or not present or (code in (1, 4, 5) and code != impl_code):
-            bad.append({"backend": backend, "op": opkind, "style": style, "k": k, "k2": k2, "fault": fk, "outcome": [st, detail],
-                        "model": {"code": code, "flips": nflips, "all_present": present}, "impl": {"post": impl_post, "code": impl_code}})
+            bad.append(dict(where, model={"code": code, "flips": nflips, "all_present": present}, impl={"post": impl_post, "code": impl_code}))
+        elif "rollback-delete-after-escape" in notes:
+            # the model (regenerated tail + handler table) says the arm that handled the escaping exception keeps the files
+            bad.append(dict(where, model="the handler of the exception that left the tail keeps the transaction's files",
+                            impl="files were deleted by Transaction._rollback after the exception left the tail"))
     ctx.correspondence("fault-trace", total - reuse_runs[0], bad)
+    if os.environ.get("C04_DUMP_DISAGREEMENTS"):
+        import json
+        with open(os.environ["C04_DUMP_DISAGREEMENTS"], "w") as fh:
+            json.dump(bad, fh, default=str, indent=1)
+    # ---- the calls a real commit issues after its flip are a word of the regenerated tail; an Exception injected at one of
+    # them reaches the caller only if the tail has an unguarded call of that kind
+    tkeys: Dict[Tuple[Any, ...], str] = {}
+    for _w, opkind, (kinds_, complete, faults) in tail_obs:
+        tl = TAIL_OF[opkind]
+        tkeys.setdefault(("word", tl, tuple(kinds_), complete),
+                         f"{'tail_accepts' if complete else 'tail_accepts_prefix'} {tl} [{'; '.join(kinds_)}]")
+        for k_, esc in faults:
+            tkeys.setdefault(("call", tl, k_, esc), f"has_call {k_} {'false' if esc else 'true'} {tl}")
+    tkl = list(tkeys)
+    try:
+        tvals = coqbuild.coq_eval(REQ, [tkeys[k_] for k_ in tkl], chunk=80) if tkl else []
+    except RuntimeError as e:
+        ctx.proof_problems.append("model evaluation (tail) failed: " + str(e)[:800])
+        tvals = []
+    verdict = dict(zip(tkl, tvals))
+    tbad = []
+    for w, opkind, (kinds_, complete, faults) in tail_obs:
+        tl = TAIL_OF[opkind]
+        if verdict and verdict.get(("word", tl, tuple(kinds_), complete)) is not True:
+            tbad.append(dict(w, tail=tl, observed_after_flip=kinds_, complete=complete,
+                             why="the calls issued after the pointer write are not a word of the regenerated tail"))
+            continue
+        for k_, esc in faults:
+            if verdict and verdict.get(("call", tl, k_, esc)) is not True:
+                tbad.append(dict(w, tail=tl, call=k_, escaped=esc,
+                                 why=("an Exception injected at this call reached the caller, but the regenerated tail has no unguarded call of this kind"
+                                      if esc else "an Exception injected at this call was swallowed, but the regenerated tail has no guarded call of this kind")))
+    ctx.correspondence("post-flip-tail", len(tail_obs), tbad if verdict or not tail_obs else [{"why": "no verdicts"}])
+    ctx.stats["post_flip_tail_words"] = len([k_ for k_ in tkl if k_[0] == "word"])
     if meta_runs:
-        b, o, s_, k, k2, fk, res, evs, _p = meta_runs[len(meta_runs) // 2]
+        b, o, s_, k, k2, fk, res, evs, _p, _c, _n = meta_runs[len(meta_runs) // 2]
         ctx.sample({"backend": b, "op": o, "style": s_, "k": k, "fault": fk, "outcome": res.outcomes["A0"], "model_events": evs})
 
 
@@ -442,9 +718,14 @@ def replay(ctx, payload) -> int:
     if "k" not in c:
         print("replay: no concrete case")
         return 2
-    clean = run_one(ctx, c["backend"], c["op"], c["style"])
+    config = c.get("config", "default")
+    clean = run_one(ctx, c["backend"], c["op"], c["style"], config=config)
     clean.root = ctx.scratch + "/c04"
-    res = run_one(ctx, c["backend"], c["op"], c["style"], make_inject(c["k"], c["fault"], c.get("k2")))
+    if c.get("fault") == "none":
+        bad_clean = clean.outcomes["A0"][0] != "ok" or "error" in clean.final or clean.final.get("missing")
+        print("replay:", f"STILL FAILS: fault-free commit on history {config}: {clean.outcomes['A0']}" if bad_clean else "passes now")
+        return 1 if bad_clean else 0
+    res = run_one(ctx, c["backend"], c["op"], c["style"], make_inject(c["k"], c["fault"], c.get("k2"), bool(c.get("sticky"))), config=config)
     res.root = ctx.scratch + "/c04"
     why = oracle(ctx, c["backend"], c["op"], c["style"], c["k"], c["fault"], res, sig(clean.initial), sig(clean.final))
     print("replay:", "STILL FAILS: " + why if why else "passes now")
